@@ -62,33 +62,40 @@ func cmdInfer(args []string) {
 			if p.Name() == "" || p.Name() == "_" {
 				continue
 			}
-			txt := p.Name() + " != nil"
-			if isStringType(p.Type()) && len(cs.FoldedKeys) > 0 {
-				txt = "folded(" + p.Name() + ")"
-			} else if !isPtrLike(p.Type()) {
-				continue
-			}
-			ex, err := parseCExpr(txt)
-			if err != nil {
-				continue
-			}
-			con := cs.Funcs[name]
-			if con == nil {
-				con = &Contract{Fn: name}
-				cs.Funcs[name] = con
-			}
-			dup := false
-			for _, r := range con.Requires {
-				if r.Text == txt {
-					dup = true
+			var txts []string
+			if isStringType(p.Type()) {
+				if len(cs.FoldedKeys) > 0 {
+					txts = append(txts, "folded("+p.Name()+")")
 				}
+				if len(cs.NlfreeField) > 0 {
+					txts = append(txts, "nlfree("+p.Name()+")")
+				}
+			} else if isPtrLike(p.Type()) {
+				txts = append(txts, p.Name()+" != nil")
 			}
-			if dup {
-				continue
+			for _, txt := range txts {
+				ex, err := parseCExpr(txt)
+				if err != nil {
+					continue
+				}
+				con := cs.Funcs[name]
+				if con == nil {
+					con = &Contract{Fn: name}
+					cs.Funcs[name] = con
+				}
+				dup := false
+				for _, r := range con.Requires {
+					if r.Text == txt {
+						dup = true
+					}
+				}
+				if dup {
+					continue
+				}
+				cl := &Clause{Kind: "requires", Expr: ex, Text: txt, Auto: true}
+				con.Requires = append(con.Requires, cl)
+				reqs = append(reqs, &reqCand{name, p.Name(), cl})
 			}
-			cl := &Clause{Kind: "requires", Expr: ex, Text: txt, Auto: true}
-			con.Requires = append(con.Requires, cl)
-			reqs = append(reqs, &reqCand{name, p.Name(), cl})
 		}
 	}
 	// ensures candidates: results that are never nil
@@ -96,20 +103,34 @@ func cmdInfer(args []string) {
 		name := e.fname(f)
 		res := f.Signature.Results()
 		for i := 0; i < res.Len(); i++ {
-			if isStringType(res.At(i).Type()) && len(cs.FoldedKeys) > 0 {
-				txt := "folded(result)"
-				if res.Len() > 1 {
-					txt = fmt.Sprintf("folded(result%d)", i)
+			if isStringType(res.At(i).Type()) {
+				for _, pred := range []string{"folded", "nlfree"} {
+					if (pred == "folded" && len(cs.FoldedKeys) == 0) || (pred == "nlfree" && len(cs.NlfreeField) == 0) {
+						continue
+					}
+					txt := pred + "(result)"
+					if res.Len() > 1 {
+						txt = fmt.Sprintf("%s(result%d)", pred, i)
+					}
+					ex, _ := parseCExpr(txt)
+					con := cs.Funcs[name]
+					if con == nil {
+						con = &Contract{Fn: name}
+						cs.Funcs[name] = con
+					}
+					dup := false
+					for _, r := range con.Ensures {
+						if r.Text == txt {
+							dup = true
+						}
+					}
+					if dup {
+						continue
+					}
+					cl := &Clause{Kind: "ensures", Expr: ex, Text: txt, Auto: true}
+					con.Ensures = append(con.Ensures, cl)
+					enss = append(enss, &reqCand{name, txt, cl})
 				}
-				ex, _ := parseCExpr(txt)
-				con := cs.Funcs[name]
-				if con == nil {
-					con = &Contract{Fn: name}
-					cs.Funcs[name] = con
-				}
-				cl := &Clause{Kind: "ensures", Expr: ex, Text: txt, Auto: true}
-				con.Ensures = append(con.Ensures, cl)
-				enss = append(enss, &reqCand{name, txt, cl})
 				continue
 			}
 			if !isPtrLike(res.At(i).Type()) {
@@ -143,6 +164,14 @@ func cmdInfer(args []string) {
 			cl := &Clause{Kind: "ensures", Expr: ex, Text: txt, Auto: true}
 			con.Ensures = append(con.Ensures, cl)
 			enss = append(enss, &reqCand{name, txt, cl})
+			// a pointer result that is always a new object
+			if _, isPtr := res.At(i).Type().Underlying().(*types.Pointer); isPtr && res.Len() == 1 {
+				ftxt := "fresh(result)"
+				fex, _ := parseCExpr(ftxt)
+				fcl := &Clause{Kind: "ensures", Expr: fex, Text: ftxt, Auto: true}
+				con.Ensures = append(con.Ensures, fcl)
+				enss = append(enss, &reqCand{name, ftxt, fcl})
+			}
 		}
 	}
 	// user-declared candidate postconditions (auto_ensures <regexp>: <expr>)
@@ -607,6 +636,9 @@ func cmdInfer(args []string) {
 		if len(cl) > 12 {
 			continue // widely used helper: keep
 		}
+		if !strings.HasSuffix(r.param, "!= nil") || !resultNilChecked(f, cl) {
+			continue // only results that some caller tests for nil are worth weakening
+		}
 		base := baseOf(cl)
 		con.Ensures = append(append([]*Clause{}, con.Ensures[:idx]...), con.Ensures[idx+1:]...)
 		now := solveFns(cl)
@@ -637,6 +669,9 @@ func cmdInfer(args []string) {
 		}
 		base := baseOf([]*ssa.Function{f})
 		for _, c := range autos {
+			if !strings.HasSuffix(c.Text, "!= nil") || !paramNilChecked(f, strings.TrimSuffix(c.Text, " != nil")) {
+				continue // only parameters the function itself tests for nil are worth weakening
+			}
 			var rest []*Clause
 			for _, x := range con.Requires {
 				if x != c {
@@ -834,4 +869,46 @@ func loopKeys(f *ssa.Function) []loopKey {
 		return true
 	})
 	return out
+}
+
+// paramNilChecked: the function compares the parameter with nil somewhere (it tolerates nil).
+func paramNilChecked(f *ssa.Function, name string) bool {
+	for _, p := range f.Params {
+		if p.Name() != name {
+			continue
+		}
+		for _, r := range *p.Referrers() {
+			if b, ok := r.(*ssa.BinOp); ok && (isNilConst(b.X) || isNilConst(b.Y)) {
+				return true
+			}
+		}
+	}
+	return false
+}
+
+// resultNilChecked: some caller compares the result of a call of f with nil.
+func resultNilChecked(f *ssa.Function, callers []*ssa.Function) bool {
+	for _, g := range callers {
+		for _, b := range g.Blocks {
+			for _, ins := range b.Instrs {
+				c, ok := ins.(*ssa.Call)
+				if !ok || c.Call.StaticCallee() != f {
+					continue
+				}
+				for _, r := range *c.Referrers() {
+					if bo, ok := r.(*ssa.BinOp); ok && (isNilConst(bo.X) || isNilConst(bo.Y)) {
+						return true
+					}
+					if ex, ok := r.(*ssa.Extract); ok {
+						for _, r2 := range *ex.Referrers() {
+							if bo, ok := r2.(*ssa.BinOp); ok && (isNilConst(bo.X) || isNilConst(bo.Y)) {
+								return true
+							}
+						}
+					}
+				}
+			}
+		}
+	}
+	return false
 }
